@@ -28,3 +28,5 @@ def run(prog, chk):
     C.destroy_once(prog, chk, "C05.i", tuple(C.NODE))
     # clear() must not leave a table/list pointer to a recycled slot: the slot is handed out again while the stale pointer still designates it
     C.clear_resets(prog, chk, "C05.j", tuple(C.NODE))
+    # a node linked with a wrong back pointer is later unlinked wrongly: its slot is recycled while still reachable, two elements share an address
+    C.link_idiom(prog, chk, "C05.k", tuple(C.NODE))
